@@ -144,7 +144,7 @@ func (p *proxyConn) handleMITM(req *http.Request) error {
 		return p.writeResponse(p.errorResponse(req, err))
 	}
 
-	if err := p.writeResponse(res); err != nil {
+	if err := p.writeResponseDeferTrace(res, true); err != nil {
 		return err
 	}
 	// Successful CONNECT response does not invoke trace.
@@ -300,7 +300,7 @@ func (p *proxyConn) handleUpgradeResponse(res *http.Response) error {
 }
 
 func (p *proxyConn) tunnel(name string, res *http.Response, crw io.ReadWriteCloser) error {
-	if err := p.writeResponse(res); err != nil {
+	if err := p.writeResponseDeferTrace(res, true); err != nil {
 		return err
 	}
 	if err := drainBuffer(crw, p.brw.Reader); err != nil {
@@ -428,6 +428,13 @@ func (p *proxyConn) writeErrorResponse(req *http.Request, err error) error {
 }
 
 func (p *proxyConn) writeResponse(res *http.Response) error {
+	return p.writeResponseDeferTrace(res, false)
+}
+
+// writeResponseDeferTrace is like writeResponse, but if deferTrace is set and the response
+// starts a tunnel (successful CONNECT or protocol upgrade) traceWroteResponse is not called:
+// the caller must call it when the tunnel has been closed.
+func (p *proxyConn) writeResponseDeferTrace(res *http.Response, deferTrace bool) error {
 	req := res.Request
 	ctx := req.Context()
 
@@ -493,13 +500,13 @@ func (p *proxyConn) writeResponse(res *http.Response) error {
 		err = p.brw.Flush()
 	}
 
-	// traceWroteResponse must not be called for:
+	// When a tunnel follows (deferTrace), traceWroteResponse must not be called for:
 	//	- a successful CONNECT request
 	//	- a successful protocol upgrade (101 Switching Protocols)
 	// In these cases, only the headers are written here; the rest of the data flows
 	// through a raw TCP tunnel. Therefore, traceWroteResponse should be invoked
 	// only after the tunnel (and thus the response body) has been fully closed.
-	if !skipTraceWroteResponse(res, err) {
+	if !(deferTrace && skipTraceWroteResponse(res, err)) {
 		p.traceWroteResponse(res, err)
 	}
 
